@@ -159,7 +159,21 @@ def ops : List (String × Handler) := [
       | .bool b => pure b
       | _ => .error "text_normalize must be a bool"
     let kind := match r with | .line _ _ => ArtistKind.patch | r => artistKindOf r
-    match asArtist pathOf r o with
+    -- polygon whose vertices are a numpy integer array: numpy's dtype arithmetic (Artist.polygonArtistInt)
+    let art ← match j.getObjVal? "vdtype" with
+      | .ok dj => do
+        let d : IntDT := ⟨(← fInt dj "bits").toNat, ← fBool dj "signed"⟩
+        let vi ← (← fArr j "v_int").mapM fun e => do
+          match ← (← jArr e).mapM jInt with
+          | [x, y] => pure (x, y)
+          | _ => .error "v_int needs pairs"
+        let pyint ← (← fArr j "origin_pyint").mapM jBool
+        let oc (isInt : Bool) (x : ℚ) : OriginC ℚ := if isInt then .pyInt x.num else .other x
+        match pyint with
+        | [bx, byy] => pure (polygonArtistInt d vi (oc bx o.x) (oc byy o.y))
+        | _ => .error "origin_pyint needs 2 bools"
+      | .error _ => pure (asArtist pathOf r o)
+    match art with
     | .error e => pure (Json.mkObj [("exc", .str e)])
     | .ok p =>
       let extra := match p, pout with
